@@ -94,7 +94,10 @@ def build(case, with_mapping=True):
     if case["vdims"]:
         kw["vdims"] = list(case["vdims"])
     if k > 1:
-        kw["vdim_mapping"] = dict(m) if with_mapping else {}
+        items = list(m.items())
+        # the dict may list the labels in any order (not necessarily the order of vdims)
+        np.random.default_rng(case["seed"] + case["drop"]).shuffle(items)
+        kw["vdim_mapping"] = dict(items) if with_mapping else {}
     f = df.Field(mesh, nvdim=k, value=arr, dtype=np.int64 if case["dtype"] == "int" else None,
                  valid=gen.make_mask(case["mask"], n), unit=case["unit"], **kw)
     return mesh, f, arr, coa
